@@ -71,7 +71,12 @@ func (this *Server) JoinCluster() error {
 func (this *Server) setup() error {
 	var err error
 
-	this.db, err = badger.Open(badger.LSMOnlyOptions(path.Join(this.config.DataDir, "anndb")).WithLogger(log.New()))
+	// Truncate: a process killed while the store appends a record to its value
+	// log (its write-ahead log) leaves an unfinished record at the end of the
+	// newest file. Nobody was told that record was written (writes are synced
+	// before they are acknowledged); without the option the store refuses to
+	// open again and the node can not restart.
+	this.db, err = badger.Open(badger.LSMOnlyOptions(path.Join(this.config.DataDir, "anndb")).WithTruncate(true).WithLogger(log.New()))
 	if err != nil {
 		return err
 	}
